@@ -52,6 +52,19 @@ def nc_snake_case_class_reference():
     return _pkg("wfg", [Module("wfg/mod_a.py", "wfg.mod_a", classes=[c], funcs=[f]), m2]), {"nc": True}
 
 
+def stale_class_generics():
+    init = Func("__init__", [Param("p002", "pos", Ann("typevar", name="T001"))], ret_none=True, body="pass")
+    first = Cls("First003", init=init)
+    second = Cls("Second004", methods=[Func("pick005", [Param("p006", "pos", Ann("typevar", name="T001"))], ret=Ann("typevar", name="T001"))])
+    return _pkg("wfi", [Module("wfi/mod_a.py", "wfi.mod_a", classes=[first, second], typevars=["T001"])]), {}
+
+
+def result_warn_always():
+    f = Func("same001", [Param("a", "pos", Ann("int"), doc="About a.", doc_type="int")], ret=Ann("int"), doc="Doc of same001.",
+             result_docs=[("", "int", "Result of same001.")])
+    return _pkg("wfh", [Module("wfh/mod_a.py", "wfh.mod_a", funcs=[f])], style="numpydoc"), {}
+
+
 BUILDERS = {f.__name__: f for f in [enum_without_publicity_test, property_tuple_as_union, callable_attribute_untyped,
                                     none_result_suppresses_list, typevar_typed_attribute_dropped, private_class_as_type,
-                                    nc_snake_case_class_reference]}
+                                    nc_snake_case_class_reference, result_warn_always, stale_class_generics]}
